@@ -63,7 +63,8 @@ def run_shard(desc, R, tier):
                 eval_point({'x': x, 'p': p}, R)
     else:
         _, N, cplx = desc
-        fam = (A.gen_cplx(N) + A.tones_cplx(N)) if cplx else (A.gen_real(N) + A.tones_real(N) + A.pcm(N))
+        fam = (A.gen_cplx(N) + A.tones_cplx(N)) if cplx else (A.gen_real(N) + A.tones_real(N) + A.pcm(N) + A.pcm64(N))
+        fam = fam + A.scaled(fam) + A.strided(fam)
         for name, x in fam:
             for p in range(1, min(N - 1, 30) + 1):
                 eval_point({'x': x, 'p': p, 'name': name}, R)
@@ -90,9 +91,11 @@ def eval_point(pt, R):
     R.point(pt)
     R.calls()
     try:
-        a, P, k = spectrum.aryule(x, p, 'biased')
+        xin = x.copy()
+        a, P, k = spectrum.aryule(xin, p, 'biased')
         a = np.asarray(a)
         k = np.asarray(k)
+        R.check(np.array_equal(xin, x), 'input_unchanged', feats, pt, xin, x, 'aryule modified its input array')
     except Exception as e:
         R.viol('stable', dict(feats, exc=type(e).__name__), pt, repr(e), None, 'aryule raised on non-degenerate data')
         return
